@@ -22,13 +22,16 @@ class CallGraph:
         self.bodies = facts.mir_by_did  # did -> mir body
         self.path = {d: b["path"] for d, b in self.bodies.items()}
         self.edges = defaultdict(set)     # did -> set(did) (local callees)
+        self.fan = set()                  # (caller, callee) pairs that exist only by foreign-trait fan-out
         self.ext = defaultdict(list)      # did -> [callee json] (non-local callees, with site)
         self.sites = defaultdict(list)    # did -> [(callee json, term/site json)]
         # local impls of local trait methods, for calls that stay generic
         self.trait_impls = defaultdict(list)  # trait method def path -> [did]
+        self.impls_of_trait = defaultdict(list)  # trait def path -> [did] (all methods of all local impls)
         for b in facts.hir:
             if b.get("impl_trait_def"):
                 self.trait_impls[b["impl_trait_def"] + "::" + b["name"]].append(b["did"])
+                self.impls_of_trait[b["impl_trait_def"]].append(b["did"])
         for d, b in self.bodies.items():
             if b.get("closure_of"):
                 # link the creating body to the closure (conservative: a created closure may be called)
@@ -39,7 +42,13 @@ class CallGraph:
                 self.sites[d].append((cj, site))
                 tgt = self._local_targets(cj)
                 if tgt:
+                    foreign_fan = bool(cj.get("trait")) and not cj.get("local") and (not cj.get("inst") or cj.get("inst_kind") == "Virtual")
                     for t in tgt:
+                        if foreign_fan:
+                            if t not in self.edges[d]:
+                                self.fan.add((d, t))
+                        else:
+                            self.fan.discard((d, t))
                         self.edges[d].add(t)
                 else:
                     self.ext[d].append((cj, site))
@@ -76,6 +85,11 @@ class CallGraph:
             if cj.get("did") in self.bodies:
                 out.append(cj["did"])
             return out
+        if cj.get("trait") and (not cj.get("inst") or cj.get("inst_kind") == "Virtual"):
+            # call of a foreign trait's method on a type parameter / trait object: after
+            # monomorphisation it may run any local impl of that trait (its provided methods call
+            # the required ones), so link every method of every local impl (conservative).
+            return list(self.impls_of_trait.get(cj["trait"], []))
         return []
 
     # ---------------------------------------------------------------- queries
@@ -121,7 +135,7 @@ class CallGraph:
             stack.append(v)
             on.add(v)
             for w in self.edges.get(v, ()):
-                if w not in nodeset:
+                if w not in nodeset or (v, w) in self.fan:
                     continue
                 if w not in index:
                     strong(w)
@@ -136,7 +150,7 @@ class CallGraph:
                     comp.append(w)
                     if w == v:
                         break
-                if len(comp) > 1 or v in self.edges.get(v, ()):
+                if len(comp) > 1 or (v in self.edges.get(v, ()) and (v, v) not in self.fan):
                     out.append(comp)
 
         for v in nodes:
